@@ -343,10 +343,20 @@ def asan_site(err):
         p = err.find("runtime error:")
     if p > 0:
         err = err[p:]
+    generic = ("src/parallel.h", "src/vec.h", "src/iters.h", "src/utils.h", "src/atomic_compat.h", "include/manifold/linalg.h",
+               "include/manifold/vec_view.h")
+    first = None
     for line in err.split("\n"):
         m = re.search(r"(/repo/(?:src|include)/[^\s:]+:\d+)", line)
         if m:
-            return m.group(1).replace("/repo/", "")
+            site = m.group(1).replace("/repo/", "")
+            if first is None:
+                first = site
+            # prefer the first frame that is not one of the generic container/algorithm headers
+            if not site.startswith(generic):
+                return site
+    if first:
+        return first
     m = re.search(r"runtime error: ([^\n]+)", err)
     return m.group(1)[:80] if m else "unknown"
 
